@@ -444,7 +444,10 @@ def monitor(case, obs):
   ncall = 0
 
   def held():
-    return [s for s in created if s not in closed_ever and s not in dropped]
+    # connections under the pool's control; one the pool already closed counts again while the pool
+    # evidently uses it (a closed pool does not forget its flushed cache: a connection that reports a live
+    # state again is lent again)
+    return [s for s in created if s not in dropped and (s not in closed_ever or s in busy or s in handoff)]
 
   def alive_q():
     return [c for c, a in Q if a]
